@@ -120,7 +120,7 @@ pub fn cells() -> Vec<(&'static str, Vec<f64>)> {
             c.push(("MVN", vec![d as f64, s]));
         }
     }
-    for d in [16., 33.] {
+    for d in [16., 33., 72., 90.] {
         c.push(("MVN", vec![d, 1.]));
     }
     // covariances far below / above unit scale (standard deviations ~1e-9, 1e-12, 1e6): any absolute
